@@ -128,7 +128,7 @@ fn run(cx: &mut SCtx, toks: String, kind: &str, slots: &[usize], pslot: Option<u
         if let Some((ol, ob, _)) = a.old {
             let newold = match before.and_then(|b| b.old) {
                 None => true,
-                Some((bl, bb, _)) => ol > bl || ob != bb || kind == "reserve",
+                Some((bl, bb, _)) => ol > bl || ob != bb || matches!(kind, "reserve" | "try_reserve" | "extend" | "extend_ref" | "deserialize_in_place" | "clone_from"),
             };
             if newold {
                 writeln!(cx.out, "Q {}", nlist(&order(cx.sets[s0].as_ref().unwrap(), false))).unwrap();
